@@ -45,6 +45,13 @@ theorem inv_step (s : State) (m : Move) (h : Inv s) (ha : assumed s m = true) : 
   | bind ns name uid node ch f pf => exact inv_bind s ns name uid node ch f pf h ha
   | deliver i f pf => exact inv_deliver s i f pf h
   | resync order f pf => exact inv_resync s order f pf h
+  | resyncSnap => exact h.of_fields rfl rfl rfl rfl rfl rfl rfl rfl
+  | resyncRec ip f pf =>
+    simp only [step]
+    split
+    · exact h
+    · rename_i r0 _
+      exact (resyncOne_spec _ ip r0 (inv_withFaults s f pf h)).1.of_fields rfl rfl rfl rfl rfl rfl rfl rfl
   | syncPodIPs f => exact inv_syncPodIPs s f h
   | apiRelease ip k f pf => exact inv_apiRelease s ip k f pf h
   | reload pools fault => exact inv_reload s pools fault h ha
@@ -135,6 +142,14 @@ theorem unassign_step (s : State) (m : Move) (h : Inv s) (ha : assumed s m = tru
     exact this.mono (fun _ hf => hf.elim)
   | deliver i f pf => exact (deliver_spec _ i (h0 f pf)).2.2
   | resync order f pf => exact (resync_spec _ order (h0 f pf)).2.2
+  | resyncSnap => exact UnassignsWithin.of_plog_eq _ rfl
+  | resyncRec ip f pf =>
+    simp only [step]
+    split
+    · exact UnassignsWithin.refl s _
+    · rename_i r0 _
+      obtain ⟨l, hl, hp⟩ := (resyncOne_spec _ ip r0 (h0 f pf)).2.2
+      exact ⟨l, hl, hp⟩
   | syncPodIPs f => exact UnassignsWithin.of_plog_eq _ (syncPodIPs_spec _ (h0 f 0)).2.2
   | apiRelease ip k f pf => exact (apiRelease_spec _ ip k (h0 f pf)).2.2
   | reload pools fault =>
